@@ -39,7 +39,8 @@ def p1_p5(prog, rep):
     if not rep.names(f, "r", "rc", "tv"):
         return
     # ---- P1 -----------------------------------------------------------
-    # state: (frozenset of queues observed empty, holder: which queue the variable r was last fetched from, tvok)
+    # state: (frozenset of queues observed empty -- plus the marker "polled" once the descriptors were polled since the
+    # last dispatch --, holder: which queue the variable r was last fetched from, tvok)
     def transfer(st, e):
         empty, holder, tvok = st
         if e.cls == "CallExpr":
@@ -47,7 +48,7 @@ def p1_p5(prog, rep):
             if c == "doevent":
                 return (frozenset(), holder, tvok)
             if c == "events_network_select":
-                return (empty - {"net"}, holder, tvok)
+                return ((empty - {"net"}) | {"polled"}, holder, tvok)
             if c == "events_timer_get":
                 return (empty, "timer", tvok)
         if e.is_assign and e.op == "=":
@@ -88,8 +89,9 @@ def p1_p5(prog, rep):
                       function=f.name, construct="net-before-imm")
         elif e.callee == "events_timer_get":
             sites.append(e)
-            rep.check({"imm", "net"} <= empty, "P1-priority", "events_timer_get() in events_run_internal", e.where,
-                      "a timer may be fetched only after both the immediate queue and the ready sockets were found empty since the last dispatch and the last poll (known empty: %s)" % sorted(empty),
+            rep.check({"imm", "net", "polled"} <= empty, "P1-priority", "events_timer_get() in events_run_internal", e.where,
+                      "a timer may be fetched only after the immediate queue was found empty, the descriptors were polled again since the last dispatch, and that poll's "
+                      "ready sockets were found empty -- otherwise a socket that became ready meanwhile loses to an expired timer (established here: %s)" % sorted(empty),
                       function=f.name, construct="timer-before-others")
         elif e.callee == "events_network_select":
             a0 = norm(e.arg(0))
@@ -362,22 +364,141 @@ def p4(prog, rep):
               "cancel unlinks from the queue of the node's own priority", can.loc, "", function=can.name, construct="cancel-queue")
 
 
+def walk_decision(f, start, targets, decide):
+    """Follow the CFG from block `start`, deciding every two-way branch with decide(op, L, R) -> bool/None,
+    until a block in `targets` is entered.  Returns that block id or None."""
+    cur = start
+    for _ in range(64):
+        if cur in targets:
+            return cur
+        b = f.blocks[cur]
+        if b.cond is not None and len(b.succs) == 2:
+            at = cond_atoms(b.cond, True)
+            if not at:
+                return None
+            op, L, R = at[0][0], at[0][1], at[0][2]
+            t = decide(op, L, R)
+            if t is None:
+                return None
+            cur = b.succs[0] if t else b.succs[1]
+        else:
+            nx = [x for x in b.succs if x is not None]
+            if len(nx) != 1:
+                return None
+            cur = nx[0]
+        if cur is None:
+            return None
+    return None
+
+
+def p7(prog, rep):
+    """Blocking time: already expired <=> now > deadline (lexicographically); otherwise deadline - now with borrow; rounded up to ms."""
+    u = prog.unit("events/events_timer.c")
+    f = u.func("events_timer_min")
+    if f is None:
+        raise cdb.AnalysisBroken("anchor missing: events_timer_min")
+    mc = list(f.calls("monoclock_get"))
+    gm = [e for e in f.all_elems() if e.is_assign and e.kid(1).strip().cls == "CallExpr" and e.kid(1).strip().callee == "timerqueue_getmin"]
+    if len(mc) != 1 or len(gm) != 1:
+        rep.defer_broken("P7: events_timer_min no longer reads the clock once and the queue minimum once")
+        return
+    NOW = root_var(norm(mc[0].arg(0)))
+    DL = norm(gm[0].kid(0))
+    zero = [e for e in f.all_elems() if e.is_assign and e.op == "=" and norm(e.kid(0))[0] == "." and norm(e.kid(0))[2] == "tv_sec" and norm(e.kid(1)) == ("c", 0)]
+    diff = [e for e in f.all_elems() if e.is_assign and e.op == "=" and norm(e.kid(0))[0] == "." and norm(e.kid(0))[2] == "tv_sec" and norm(e.kid(1))[0] == "-"]
+    if len(zero) != 1 or len(diff) != 1:
+        rep.bad("P7-block", "events_timer_min: expired / remaining branches", f.loc, "expected one 'timeout = 0' branch and one 'deadline - now' branch", function=f.name, construct="branches")
+        return
+    Z, D = zero[0].block.id, diff[0].block.id
+    start = mc[0].block.id
+    # the block after the clock's success test
+    for b in f.blocks.values():
+        if b.cond is not None and any((Le.strip() if Le is not None else None) is mc[0] for op, L, R, Le, Re in cond_atoms(b.cond, True)):
+            start = b.succs[1]
+    wrong = []
+    for so in (-1, 0, 1):
+        for uo in (-1, 0, 1):
+            def decide(op, L, R, so=so, uo=uo):
+                fl = L[2] if L[0] == "." else None
+                fr = R[2] if R[0] == "." else None
+                if fl != fr or fl not in ("tv_sec", "tv_usec"):
+                    return None
+                o = so if fl == "tv_sec" else uo          # ordering of now relative to deadline
+                lr, rr = root_var(L), root_var(R)
+                if lr == NOW and rr == DL:
+                    pass
+                elif lr == DL and rr == NOW:
+                    o = -o
+                else:
+                    return None
+                return {"<": o < 0, ">": o > 0, "==": o == 0, "!=": o != 0, "<=": o <= 0, ">=": o >= 0}[op]
+            got = walk_decision(f, start, {Z, D}, decide)
+            lex = so if so != 0 else uo
+            want = {1: Z, -1: D}.get(lex)
+            if got is None or (want is not None and got != want):
+                wrong.append(((so, uo), "zero" if got == Z else "remaining" if got == D else None))
+    rep.check(not wrong, "P7-block", "events_timer_min: timeout 0 exactly when now is past the earliest deadline (nine orderings of sec/usec)", f.loc,
+              "orderings (now vs deadline) routed wrongly: %s -- a deadline treated as not yet expired yields a negative, i.e. unbounded, poll timeout" % wrong,
+              function=f.name, construct="expired-test")
+    # remaining time = deadline - now with borrow
+    du = [e for e in f.all_elems() if e.is_assign and e.op == "=" and norm(e.kid(0))[0] == "." and norm(e.kid(0))[2] == "tv_usec" and norm(e.kid(1))[0] == "-"]
+    ok = len(du) == 1
+    if ok:
+        def side(n):
+            return root_var(n)
+        a, b = norm(diff[0].kid(1)), norm(du[0].kid(1))
+        ok = side(a[1]) == DL and side(a[2]) == NOW and side(b[1]) == DL and side(b[2]) == NOW and a[1][2] == a[2][2] == "tv_sec" and b[1][2] == b[2][2] == "tv_usec"
+        bor = [e for e in f.all_elems() if e.is_assign and e.op == "+=" and norm(e.kid(1)) == ("c", 1000000)]
+        dec = [e for e in f.all_elems() if e.is_assign and e.op == "-=" and norm(e.kid(1)) == ("c", 1) and norm(e.kid(0))[2] == "tv_sec"]
+        ok = ok and len(bor) == 1 and len(dec) == 1
+        if ok:
+            g = [(op, L, R) for cond, truth in f.edge_conds(bor[0]) for op, L, R, _, _ in cond_atoms(cond, truth)]
+            ok = any(op == "<" and L[0] == "." and L[2] == "tv_usec" and root_var(L) == DL and root_var(R) == NOW for op, L, R in g) or \
+                any(op == ">" and L[0] == "." and L[2] == "tv_usec" and root_var(L) == NOW and root_var(R) == DL for op, L, R in g)
+    rep.check(ok, "P7-block", "events_timer_min: remaining time = deadline - now, borrowing a second when usec underflows", f.loc, "", function=f.name, construct="difference")
+    # poll timeout: NULL -> -1 (no timer), else milliseconds rounded up, clamped
+    n = prog.unit("events/events_network.c")
+    sel = n.func("events_network_select")
+    to = [e for e in sel.all_elems() if e.is_assign and e.op == "=" and norm(e.kid(0))[0] == "v" and norm(e.kid(0))[1] == "timeout"]
+    vals = [norm(e.kid(1)) for e in to]
+    tvp = ("v", sel.params[0]["name"], sel.params[0]["id"])
+    sec, usec = (".", ("*", tvp), "tv_sec"), (".", ("*", tvp), "tv_usec")
+    up = ir.B("+", ir.B("*", sec, ("c", 1000)), ("/", ir.B("+", usec, ("c", 999)), ("c", 1000)))
+    okv = ("c", -1) in vals and up in vals
+    neg = [e for e in to if norm(e.kid(1)) == ("c", -1)]
+    okn = len(neg) == 1 and any(op == "==" and L == tvp and R == ("c", 0) for cond, truth in sel.edge_conds(neg[0]) for op, L, R, _, _ in cond_atoms(cond, truth))
+    pl = list(sel.calls("poll"))
+    okp = len(pl) == 1 and norm(pl[0].arg(2))[0] == "v" and norm(pl[0].arg(2))[1] == "timeout"
+    rep.check(okv and okn and okp, "P7-block", "events_network_select: wait forever only without timers; otherwise sec*1000 + (usec+999)/1000 ms (rounded up)", sel.loc,
+              "timeout values: %s" % [show(v) for v in vals], function=sel.name, construct="ms-roundup")
+    # the loop hands events_timer_min's result to the blocking select
+    r = prog.unit("events/events.c").func("events_run_internal")
+    tm = list(r.calls("events_timer_min"))
+    bs = [c for c in r.calls("events_network_select") if norm(c.arg(0))[0] != "&"]
+    ok = len(tm) == 1 and len(bs) == 1 and norm(tm[0].arg(0)) == ("&", norm(bs[0].arg(0))) and r.dominates(tm[0], bs[0])
+    wr = [e for e in r.all_elems() if (e.is_assign or e.is_incdec) and bs and norm(e.kid(0)) == norm(bs[0].arg(0))]
+    rep.check(ok and not wr, "P7-block", "the blocking poll waits exactly for the time events_timer_min computed", r.loc, "", function=r.name, construct="handover")
+
+
 def run(tier):
     rep = report.Report("C05", tier,
         "Decided on every path of events_run_internal/events_run/events_spin and events_immediate.c: priority by construction (which "
         "queues were observed empty since the last dispatch at each fetch and at the blocking poll), status storage/propagation and -1 "
         "on internal failure, an interrupt test between any two dispatches and the flag's reset, tail insertion / head removal / minq "
         "discipline of the immediate queues, and that a fetched event is dispatched before anything else is fetched or returned. "
-        "Not decided: the millisecond round-up of the poll timeout, timer deadline order (C13), wall-clock blocking behaviour.",
+        "P7: the blocking time is 0 exactly when the earliest deadline has passed (nine orderings evaluated), otherwise deadline - now with "
+        "borrow, converted to milliseconds rounded up, and is what the blocking poll receives. "
+        "Not decided: timer deadline order (C13), wall-clock blocking behaviour of poll(2).",
         trusted=["TAILQ macros", "poll(2)"])
     configs = [cdb.HOST]
     if tier == "thorough":
         configs.append(cdb.Config("host-ndebug", extra=["-DNDEBUG"]))
     for cfg in configs:
-        prog = ir.Program(["events/events.c", "events/events_immediate.c"], cfg)
+        prog = ir.Program(["events/events.c", "events/events_immediate.c", "events/events_timer.c", "events/events_network.c"], cfg)
         rep.add_stats(prog)
         p1_p5(prog, rep)
         p4(prog, rep)
+        p7(prog, rep)
     n = len(configs)
     rep.require_min("P1-priority", 4 * n)
     rep.require_min("P2-status", 8 * n)
